@@ -278,6 +278,7 @@ struct Agent {
             else if (s == QLatin1String("Bad fingerprint")) warns << QStringLiteral("fp");
             else if (s.startsWith(QLatin1String("Truncated STUN attribute"))) warns << QStringLiteral("ta");
             else if (s.startsWith(QLatin1String("STUN server did not provide"))) warns << QStringLiteral("noref");
+            else if (s == QLatin1String("Missing MESSAGE-INTEGRITY")) warns << QStringLiteral("nomi2");     // from decode() itself (80bab8b)
             else if (s.contains(QLatin1String("MESSAGE-INTEGRITY")) && s.contains(QLatin1String("missing"), Qt::CaseInsensitive)) warns << QStringLiteral("nomi");
             else if (s.startsWith(QLatin1String("Skipping "))) { /* decoder chatter printed only when decoding failed */ }
             else { warns << QStringLiteral("other"); if (getenv("C15_DEBUG")) fprintf(stderr, "WARN %s\n", qPrintable(s)); }
@@ -399,7 +400,10 @@ struct Victim {
                 QXmppStunMessage m;
                 if (type == (QXmppStunMessage::Binding | QXmppStunMessage::Request)) {
                     // the victim's own connectivity check: must verify under the password we gave it
-                    if (!m.decode(b, creds.remotePw.toUtf8())) { seen.c << to + QStringLiteral(":undecodable"); continue; }
+                    // it protects its checks with the remote password it has been GIVEN: none before `rpass`/`creds`, so no MESSAGE-INTEGRITY
+                    // then (since repo commit 80bab8b decode() with a key refuses a request without one)
+                    if (!m.decode(b, pwSet ? creds.remotePw.toUtf8() : QByteArray())) { seen.c << to + QStringLiteral(":undecodable"); continue; }
+                    if (!pwSet) stat("checks_sent_without_integrity_before_remote_password");
                     int k = vtx.indexOf(m.id());
                     if (k >= 0) {
                         stat("retransmissions_seen");
